@@ -19,6 +19,7 @@ Interfaces: check(context: BaseLintContext) -> list[Violation]
 Implementation: Delegation to matcher for cross-reference logic, violation builder for messages
 """
 
+import re
 from pathlib import Path
 
 from src.core.base import BaseLintContext, BaseLintRule
@@ -123,7 +124,7 @@ class LazyIgnoresRule(BaseLintRule):
         # Find violations
         violations: list[Violation] = []
         violations.extend(self._find_unjustified(ignores, suppressions, file_path))
-        violations.extend(self._find_orphaned(suppressions, used_rule_ids, file_path))
+        violations.extend(self._find_orphaned(suppressions, used_rule_ids, file_path, code))
 
         return violations
 
@@ -149,7 +150,7 @@ class LazyIgnoresRule(BaseLintRule):
         return violations
 
     def _find_orphaned(
-        self, suppressions: dict[str, str], used_rule_ids: set[str], file_path: str
+        self, suppressions: dict[str, str], used_rule_ids: set[str], file_path: str, code: str = ""
     ) -> list[Violation]:
         """Find header suppressions without matching code ignores."""
         violations: list[Violation] = []
@@ -159,10 +160,19 @@ class LazyIgnoresRule(BaseLintRule):
             violations.append(
                 build_orphaned_violation(
                     file_path=file_path,
-                    header_line=1,  # Header entries are at file start
+                    header_line=_header_entry_line(code, rule_id),
                     rule_id=rule_id,
                     justification=justification,
                 )
             )
 
         return violations
+
+
+def _header_entry_line(code: str, rule_id: str) -> int:
+    """Find the 1-indexed line of the header's `- RULE: justification` entry (1 if it cannot be located)."""
+    entry = re.compile(rf"^[\s*\-•]*{re.escape(rule_id)}\s*:", re.IGNORECASE)
+    for line_number, line in enumerate(code.splitlines(), start=1):
+        if entry.match(line):
+            return line_number
+    return 1
